@@ -9,8 +9,8 @@ RULE = ('kernel-level exchange/collect cases with band-dependent data, including
         'absorption/attenuation compared stage by stage with the single-band model and, on the implementation, '
         'with B single-band runs bit for bit; non-trivial = B>=2 with non-zero result')
 RULE = RULE + '; always one wall that absorbs fully in the FIRST band only'
-ASSUMPTIONS = ['the theorem only guards the model (band-wise by construction); the property of the code rests on the tie and the bitwise oracle']
-EXPLANATION = 'band b of a multi-band run is a function of band b of the inputs only (any scalar type).'
+ASSUMPTIONS = ['for _energy_exchange and _collect_receiver_energy band independence is proved about the TRANSLATED source (Generated/Kernels.lean + KernelEquiv); for the other stages (bake, source, glue) the model is band-wise by construction and the property rests on the tie and the bitwise oracle']
+EXPLANATION = 'band b of a multi-band run is a function of band b of the inputs only; for the exchange and receiver kernels this is a theorem about the code as translated on this run (energyExchange_band_local, collectReceiverEnergy_band_local).'
 
 
 def shape_coincidence_cases(rng, n):
